@@ -414,6 +414,7 @@ impl<'s, A: Pay + Send + Sync, B: Pay + Send + Sync> W<'s, A, B> {
     }
 
     fn verify(&mut self, ctx: &str) -> R {
+        set_op("C01,C10,C04|reading thin/fat handles");
         for i in 0..self.slots.len() {
             let (a, kind, v) = match &self.slots[i] {
                 None => continue,
@@ -505,6 +506,7 @@ impl<'s, A: Pay + Send + Sync, B: Pay + Send + Sync> W<'s, A, B> {
     }
 
     fn step(&mut self) -> R {
+        set_op("C01,C10|thin-world operation");
         let used = self.used();
         let free = self.free();
         let roll = self.rng.below(100);
